@@ -218,9 +218,15 @@ def is_subtype(sub, base):
         # return typing_utils.issubtype(sub, base)
     else:
         sub_args, base_args = get_args(sub), get_args(base)
-        # NOTE: FieldInfo of pydantic is not comparable :( so we ignore it
-        # same_ann = list(sub_args)[1:] == list(base_args)[1:]
-        return is_subtype(sub_args[0], base_args[0])  # and same_ann
+        # NOTE: FieldInfo of pydantic is not comparable :( so we compare what it states
+        # (alias, constraints, ...), other kinds of annotations are ignored
+        same_ann = _field_infos(sub_args[1:]) == _field_infos(base_args[1:])
+        return same_ann and is_subtype(sub_args[0], base_args[0])
+
+
+def _field_infos(anns):
+    """Return comparable representation of the pydantic FieldInfo annotations."""
+    return [repr(list(a.__repr_args__())) for a in anns if hasattr(a, "__repr_args__")]
 
 
 def is_subtype_of(t: Any) -> Callable[[Any], bool]:
